@@ -8,7 +8,7 @@
 // cache (digest.ExistenceCache + eviction sets + ExistenceCachingBlobAccess)
 // are assembled from their exported constructors over recording model backends
 // (gstore = gate + fault plan + event log in front of model.Store) and a
-// virtual clock. Four engines observe executions:
+// virtual clock. Five engines observe executions:
 //
 //   - seq:    sequential histories against a composite, checked step by step
 //     against the placement of the objects (exact oracle): reads,
@@ -25,6 +25,12 @@
 //     transparency of the reads, stalls (state-based verdict), panics.
 //   - ecache: sequential histories against the existence cache with clock
 //     advances of exactly duration-1 / duration / duration+1.
+//   - cfg:    sequential histories against stacks built by the CONFIGURATION
+//     layer (bsconfig.NewBlobAccessFromConfiguration, CAS creator):
+//     [existence_caching {] read_fallback | read_caching [}] with a
+//     configured replicator over two recording leaves that differ in
+//     whether they distinguish instance names, the same contents
+//     addressed under several instance names (cfg.go).
 //
 // Helpers that would belong in lib/: the virtual clock (lib/sim), settle and
 // the gate scheduler (lib/run or lib/sim), gstore's event log with return time
@@ -45,7 +51,8 @@ func main() {
 		Level:    "exploration",
 		Rule: "case = (composite kind, replicator stack of 0-2 decorators out of {deduplicating, concurrency-limiting(1-3), queued(cache size 1-4, duration)} over local|noop, key format, stream-/slice-backed backends, placement of 1-7 objects, fault plan) x " +
 			"(a sequential history of 6-30 operations | 2-18 concurrent callers over overlapping digest sets under a gate-by-gate schedule with cancellations, clock advances, evictions | the same free-running); " +
-			"distinct = hash of configuration + operations + executed schedule (released gates in order); non-trivial (only those are counted as distinct) = sequential: a read fell through to the slow/secondary backend, a call failed or a FindMissing mixed placements; concurrent: two callers ask for a common object; existence cache: at least one answer came from the cache",
+			"plus configuration-built stacks: (read_fallback | read_caching) x optional existence_caching(size 1-8, LRU|FIFO|RR) x replicator configuration x (instance-aware | instance-unaware) per leaf x 3-7 objects over 1-3 contents and 4 instance names x a sequential history of 6-18 operations; " +
+			"distinct = hash of configuration + operations + executed schedule (released gates in order); non-trivial (only those are counted as distinct) = sequential: a read fell through to the slow/secondary backend, a call failed or a FindMissing mixed placements; concurrent: two callers ask for a common object; existence cache: at least one answer came from the cache; configured: a read fell through, an existence-cache hit, or a digest was asked for whose contents had been reported present under another instance name",
 		Workers:     8,
 		CaseTimeout: 90 * time.Second,
 		Race:        true,
@@ -73,11 +80,21 @@ func main() {
 			"concurrent_read_throughs":                    84,
 			"concurrent_present_reports":                  294,
 			"composite_clean_scenarios":                   16,
+			// cfg group (configuration-built stacks), ~2/3 of the minimum over seeds 1, 2, 3, 5, 7.
+			"scen_cfg":                   336,
+			"scen_cfg_existence_caching": 260,
+			"scen_cfg_leaves_differ_in_instance_awareness": 240,
+			"cfg_alias_asked_after_present_held_nowhere":   160,
+			"cfg_existence_cache_hits":                     1200,
+			"cfg_findmissing_exact_checks":                 2100,
+			"cfg_present_reports":                          3100,
+			"cfg_read_through_copied":                      105,
 		},
 		Assumptions: []string{
 			"an injected backend failure never uses NOT_FOUND (that code means 'the backend does not hold the object', which is the placement the oracle reasons about)",
 			"'after that caller asked' is read over call intervals: a sink operation justifies a caller's success if it returned after the caller's call started",
-			"existence cache and backend use the same digest key format",
+			"existence cache and backend use the same digest key format (hand-assembled engines; in the cfg group the configuration layer chooses the format and the oracle reads 'the object' as the digest keyed the way the reporting backend keys it)",
+			"cfg group: a backend 'reported an object present' if a successful FindMissing did not list it, a read of it succeeded or an upload of it was acknowledged; all configured cache durations are 10^6 h, so every report lies within the configured duration and no verdict depends on the system clock",
 			"a read that was itself hit by an injected fault or cancellation may fail; it may still neither invent an object nor answer NOT_FOUND for one that is held",
 		},
 		Body: body,
@@ -101,6 +118,9 @@ func caseRng(c *run.Case) *gen.Rng {
 	return gen.New(a, b)
 }
 
+// Case counts of the cfg group (quick / thorough totals).
+const cfgQuick, cfgThorough = 480, 20000
+
 func body(w *run.Worker) {
 	if only := os.Getenv("C17_ONLY"); only != "" { // debugging aid: run one group only (floors will be missed)
 		switch only {
@@ -114,11 +134,14 @@ func body(w *run.Worker) {
 			w.Cases("conc", w.N(1000, 30000), func(c *run.Case) { compositeScenario(c, w, caseRng(c)) })
 		case "ec":
 			w.Cases("conc", w.N(1000, 30000), func(c *run.Case) { ecScenario(c, w, caseRng(c)) })
+		case "cfg":
+			w.Cases("cfg", w.N(cfgQuick, cfgThorough), func(c *run.Case) { cfgCase(c, w, caseRng(c)) })
 		}
 		return
 	}
 	w.Cases("seq", w.N(1200, 50000), func(c *run.Case) { seqCase(c, w, caseRng(c)) })
 	w.Cases("ecache", w.N(600, 20000), func(c *run.Case) { ecacheCase(c, w, caseRng(c)) })
+	w.Cases("cfg", w.N(cfgQuick, cfgThorough), func(c *run.Case) { cfgCase(c, w, caseRng(c)) })
 	w.Cases("conc", w.N(1000, 30000), func(c *run.Case) {
 		r := caseRng(c)
 		switch k := r.Intn(20); {
